@@ -174,10 +174,10 @@ def gen_items(tier, seed):
         items.append(('G2', {'syms': [list(x) for x in ms], 'fpb': 50, 'strategies': st2, 'rich': len(ms) <= 2}))
     # G3: output-list shapes x name fee
     shape_wallets = [[], ['1'], ['5', '5'], ['cent', '1', '10'], ['neg', 'one', '1'], ['cent', 'cent', 'cent', 'cent']]
-    shapes = [('pay1', 0), ('pay2', 0), ('claim1', 0), ('claim1', 200000), ('claim30', 0), ('claim30', 200000),
+    shapes = [('pay1', 0), ('pay2', 0)] + [(name, fee) for name in CLAIM_NAMES for fee in (0, 200000)] + [
               ('update', 0), ('support', 0), ('support_data', 0), ('purchase', 0)]
     for shape, fpnc in shapes:
-        for w in shape_wallets:
+        for w in (shape_wallets[1:4] if quick and shape in CLAIM_NAMES and shape not in ('claim1', 'claim30') else shape_wallets):
             for fpb in ([50] if quick else [1, 50, 1000]):
                 items.append(('G3', {'syms': w, 'fpb': fpb, 'strategies': strategies if quick else ALL_STRATEGIES,
                                      'rich': True, 'shape': shape, 'fpnc': fpnc}))
@@ -370,6 +370,19 @@ def single_cases(a, seed):
 # executing one case on the implementation
 # ------------------------------------------------------------------------------------------------
 
+# claim names: the name fee is charged per BYTE of the encoded name (what lbrycrd counts), so names whose UTF-8
+# length differs from their character count are part of the alphabet
+CLAIM_NAMES = {
+    'claim1': 'a', 'claim30': 'a' * 30,
+    'claim_cyr9': '\u043f\u0440\u0438\u0432\u0435\u0442\u043c\u0438\u0440',   # 9 Cyrillic characters, 18 bytes
+    'claim_e12': '\u00e9' * 12,                                                      # 2-byte: 12 characters, 24 bytes
+    'claim_cjk7': '\u65e5\u672c\u8a9e\u306e\u306a\u307e\u3048',                 # 3-byte: 7 characters, 21 bytes
+    'claim_euro1': '\u20ac',                                                         # 3-byte: 1 character, 3 bytes
+    'claim_emoji6': '\U0001f600' * 6,                                                # 4-byte: 6 characters, 24 bytes
+    'claim_mixed': 'abc-\u043f\u0440\u0438-\u65e5\u672c-\U0001f600-xyz',           # ASCII + 2/3/4-byte: 16 characters, 26 bytes
+}
+
+
 def p2pkh(h):
     return b'\x76\xa9\x14' + h + b'\x88\xac'
 
@@ -404,8 +417,8 @@ def build_request(h, case):
             return [(x, p2pkh(PAYEE_HASH)), (CENT, p2pkh(PAYEE2))]
         if shape == 'pay250':
             return [(x, p2pkh(PAYEE_HASH))] + [(DUST + 1 + k, p2pkh(PAYEE2)) for k in range(249)]
-        if shape in ('claim1', 'claim30'):
-            name = 'a' * (1 if shape == 'claim1' else 30)
+        if shape in CLAIM_NAMES:
+            name = CLAIM_NAMES[shape]
             return [(x, Output.pay_claim_name_pubkey_hash(x, name, claim_obj(), hold_h).script.source)]
         if shape == 'update':
             prev = pre_coins[0].txo
@@ -444,8 +457,8 @@ def build_request(h, case):
     elif shape in ('pay1', 'pay2', 'pay250'):
         outs = [Output.pay_pubkey_hash(a, s[3:23]) for a, s in expected]
         coro = Transaction.create(pre_inputs, outs, accts, acct)
-    elif shape in ('claim1', 'claim30'):
-        coro = Transaction.claim_create('a' * (1 if shape == 'claim1' else 30), claim_obj(), x, hold, accts, acct)
+    elif shape in CLAIM_NAMES:
+        coro = Transaction.claim_create(CLAIM_NAMES[shape], claim_obj(), x, hold, accts, acct)
     elif shape == 'update':
         coro = Transaction.claim_update(pre_coins[0].txo, claim_obj(), x, hold, accts, acct)
     elif shape == 'support':
@@ -1119,7 +1132,7 @@ def run(ctx):
               'unverified@-1); targets placed at reference sums (subset sums / singles / total) minus surplus in '
               '{-1,0,1,c/2,c34,c,c+1,C34+DUST+1,C,C+1,C+DUST,C+DUST+1,..} (c = 46 x fee rate, the selector cost of change, C = 56 x '
               'fee rate, the builder cost of change, c34/C34 the same with a 34-byte output) plus '
-              'short-by-1 and far-short; output shapes pay1, pay2, claim (name 1/30, name-char fee 0/200000), update, '
+              'short-by-1 and far-short; output shapes pay1, pay2, claim (ASCII names of 1/30 bytes and 2-, 3-, 4-byte and mixed UTF-8 names whose byte length differs from their character count; name fee rate 0/200000 per byte), update, '
               'support, support+data, purchase, 250 outputs, 250 UTXOs, input-only sweep; pre-chosen reserved input worth '
               'cost-d for d in {5,9,10,11,50,99,100,0,-1,-DUST,..}; fee_per_byte 1/50/1000; decoys (reserved, spent, '
               "other account's, claim, received purchase); used change addresses 0/1/2; multi-step histories on one ledger "
